@@ -128,8 +128,16 @@ class Source:
             return
         new = subset.census(self.tree)
         if self.is_pyx:
-            for c in new.values():
-                c.pop("decorators", None)
+            # compiler directives given as decorators are the business of the rules that read them; decorators that DECLARE C types
+            # or change how the function is compiled and called are declarations the front end does not see
+            ref_c = inv["census"]
+            for k_, c in new.items():
+                decs = c.pop("decorators", None) or []
+                old = (ref_c.get(k_) or {}).get("decorators", [])
+                for d_ in decs:
+                    if d_ not in old and d_.startswith(("cython.locals", "cython.returns", "cython.cfunc", "cython.ccall", "cython.exceptval",
+                                                         "cython.inline", "cython.declare")):
+                        c["node:cython-declaration-decorator"] = c.get("node:cython-declaration-decorator", 0) + 1
         self.outside_subset = subset.flags(new, inv["census"])
         self.tree._outside_subset = set(self.outside_subset)
         if "<module>" in self.outside_subset:
